@@ -15,6 +15,14 @@ use std::task::{Context, Poll, Wake, Waker};
 
 pub struct WakerEngine;
 
+struct SendPtr(*const CountWaker);
+unsafe impl Send for SendPtr {}
+impl SendPtr {
+    fn get(&self) -> *const CountWaker {
+        self.0
+    }
+}
+
 struct CountWaker {
     wakes: AtomicU64,
     drops: Arc<AtomicU32>,
@@ -234,6 +242,23 @@ struct Shared {
     /// free-running mode: this many threads clone the borrowed waker of the current poll at the
     /// same time (a `&Waker` is Sync); their clones go to the last handle slots
     concurrent_clones: usize,
+    /// how often the caller's waker has been woken so far (whatever kind of caller it is)
+    probe: Option<Box<dyn Fn() -> u64 + Send>>,
+    /// wakes that had not reached the caller's waker by the time the wake call returned
+    late_wakes: u32,
+}
+
+/// `f` performs one wake: it has to have reached the caller's waker when it returns (other
+/// wakes may arrive in the meantime, so "at least one more").
+fn timely(sh: &Mutex<Shared>, f: impl FnOnce()) {
+    let before = sh.lock().unwrap().probe.as_ref().map(|p| p());
+    f();
+    let mut g = sh.lock().unwrap();
+    if let (Some(b), Some(p)) = (before, g.probe.as_ref()) {
+        if p() < b + 1 {
+            g.late_wakes += 1;
+        }
+    }
 }
 
 fn note(sh: &Mutex<Shared>, wake: bool, line: String) {
@@ -250,7 +275,7 @@ fn run_wop(sh: &Mutex<Shared>, op: WOp, borrowed: Option<&Waker>) {
         WOp::BorrowWake => {
             if let Some(w) = borrowed {
                 note(sh, true, "BorrowWake".into());
-                w.wake_by_ref();
+                timely(sh, || w.wake_by_ref());
             }
         }
         WOp::BorrowClone(h) => {
@@ -287,14 +312,14 @@ fn run_wop(sh: &Mutex<Shared>, op: WOp, borrowed: Option<&Waker>) {
             let w = sh.lock().unwrap().handles[h].take();
             if let Some(w) = w {
                 note(sh, true, format!("Wake {}", h));
-                w.wake();
+                timely(sh, || w.wake());
             }
         }
         WOp::WakeRef(h) => {
             let w = sh.lock().unwrap().handles[h].take();
             if let Some(w) = w {
                 note(sh, true, format!("WakeRef {}", h));
-                w.wake_by_ref();
+                timely(sh, || w.wake_by_ref());
                 let mut g = sh.lock().unwrap();
                 if g.handles[h].is_none() {
                     g.handles[h] = Some(w);
@@ -638,6 +663,10 @@ fn check(st: &mut State, when: &str) -> VResult {
     };
     let _ = lines;
     st.model_wakes = wakes_done;
+    {
+        let late = st.sh.lock().unwrap().late_wakes;
+        vcheck!(late == 0, "waker.wake_deferred", "wakes", "{}: {} wake(s) had not reached the caller's waker by the time the wake call returned", when, late);
+    }
     let base = if st.caller.is_some() { 1 } else { 0 };
     if st.node_caller {
         let strong = n_live();
@@ -709,7 +738,20 @@ fn new_state(kind: i64, caller_kind: i64) -> State {
     } else {
         Waker::from(cw)
     };
-    let sh = Arc::new(Mutex::new(Shared { pending: Vec::new(), handles: (0..NH).map(|_| None).collect(), wakes_done: 0, effective: 0, reentrant: 0, log: Vec::new(), ready: false, concurrent_clones: 0 }));
+    let sh = Arc::new(Mutex::new(Shared { pending: Vec::new(), handles: (0..NH).map(|_| None).collect(), wakes_done: 0, effective: 0, reentrant: 0, log: Vec::new(), ready: false, concurrent_clones: 0, probe: None, late_wakes: 0 }));
+    {
+        let wp = SendPtr(wref);
+        let probe: Box<dyn Fn() -> u64 + Send> = if node_caller {
+            Box::new(|| N_WAKES.load(Ordering::SeqCst))
+        } else if static_caller {
+            Box::new(|| S_WAKES.load(Ordering::SeqCst))
+        } else {
+            // (the Arc-backed caller waker: alive as long as the run keeps `_keep` or a clone; the
+            // probe is only consulted around wakes, which need a live clone)
+            Box::new(move || unsafe { (*wp.get()).wakes.load(Ordering::SeqCst) })
+        };
+        sh.lock().unwrap().probe = Some(probe);
+    }
     *unsafe { &*wref }.pool.lock().unwrap() = Some(sh.clone());
     let obj = make_obj(kind, &sh);
     State { sh, obj: Some(obj), w, wref, caller: Some(caller), drops, static_caller, node_caller, foreign_caller, _keep: keep, in_poll: false, poll_entry: 0, model_wakes: 0, fplugin: (0..NH).map(|_| None).collect(), fplugin_wakes: 0 }
@@ -912,7 +954,7 @@ fn exec_free(plan: &Plan, ctx: &mut RunCtx) -> VResult {
         for (t, mine) in per_thread.into_iter().enumerate() {
             let steps = &plan.steps;
             hs.push(sc.spawn(move || {
-                let sh = Mutex::new(Shared { pending: Vec::new(), handles: mine, wakes_done: 0, effective: 0, reentrant: 0, log: Vec::new(), ready: false, concurrent_clones: 0 });
+                let sh = Mutex::new(Shared { pending: Vec::new(), handles: mine, wakes_done: 0, effective: 0, reentrant: 0, log: Vec::new(), ready: false, concurrent_clones: 0, probe: None, late_wakes: 0 });
                 for step in steps.iter().filter(|s| (s.t as usize) % threads == t && s.t != 0 || threads == 1) {
                     if let Some(op) = parse_wop(step) {
                         run_wop(&sh, op, None);
